@@ -35,14 +35,11 @@ func (p *c02OraclePool) Close() {
 	}
 }
 
-const c02BlindSig = `("?blind" 2 ((tv 0)) (tv 1))`
-
 func c02Table(user []string) string {
 	var gs []string
 	for _, s := range c02Lib {
 		gs = append(gs, s.sexp())
 	}
-	gs = append(gs, c02BlindSig)
 	gs = append(gs, user...)
 	return "(" + c02TypesSexp() + " (globals " + strings.Join(gs, " ") + "))"
 }
@@ -95,7 +92,12 @@ func c02AskMany(o *Oracle, reqs []string) []string {
 	return out
 }
 
+func c02StripFlags(a string) string {
+	return strings.TrimPrefix(strings.TrimPrefix(a, "AMBIG "), "OPENGN ")
+}
+
 type c02ModelRes struct {
+	openGN   bool     // a generic record/union occurs with a type variable inside its type arguments
 	sigs     []string // Go signature text per function (fc's spacing) or "ILLTYPED"
 	user     []*c02Sig
 	inDomain bool // false: ill-typed, a type in the body that nothing determines, or a record type determined only through a field name
@@ -126,7 +128,13 @@ func c02ModelMany(or *Oracle, p *c02Prog, masks []uint) []c02ModelRes {
 			reqs = append(reqs, "(infer "+p.fnSexp(fi, mask, false)+" "+tab+")")
 			reqs = append(reqs, "(infertype "+p.fnSexp(fi, mask, false)+" "+tab+")")
 			if field {
-				reqs = append(reqs, "(infer "+p.fnSexp(fi, mask, true)+" "+tab+")")
+				bs := map[string]string{}
+				f.Body.blindSigs(bs)
+				var extra []string
+				for _, n := range SortedKeys(bs) {
+					extra = append(extra, bs[n])
+				}
+				reqs = append(reqs, "(infer "+p.fnSexp(fi, mask, true)+" "+c02Table(append(extra, tabs[k]...))+")")
 			}
 			owner = append(owner, k)
 		}
@@ -141,13 +149,19 @@ func c02ModelMany(or *Oracle, p *c02Prog, masks []uint) []c02ModelRes {
 				a = strings.TrimPrefix(a, "AMBIG ")
 				res[k].inDomain = false
 			}
+			if strings.HasPrefix(a, "OPENGN ") {
+				a = strings.TrimPrefix(a, "OPENGN ")
+				res[k].openGN = true
+			}
 			res[k].sigs = append(res[k].sigs, a)
 			if a == "ILLTYPED" {
 				res[k].inDomain = false
 				dead[k] = true
 				continue
 			}
-			if field && strings.TrimPrefix(ans[n*per+2], "AMBIG ") != a {
+			// the field-blind run must give the same signature and must not leave a type undetermined that
+			// the field name alone would fix (e.g. (fun r -> r.RX) passed for an unused generic argument)
+			if field && (c02StripFlags(ans[n*per+2]) != a || strings.HasPrefix(ans[n*per+2], "AMBIG ") != strings.HasPrefix(ans[n*per], "AMBIG ")) {
 				res[k].inDomain = false
 			}
 			sg := c02SigOfAnswer(f.Name, ans[n*per+1])
@@ -158,10 +172,41 @@ func c02ModelMany(or *Oracle, p *c02Prog, masks []uint) []c02ModelRes {
 	return res
 }
 
-func c02Model(or *Oracle, p *c02Prog, mask uint) (sigs []string, user []*c02Sig, inDomain bool) {
-	r := c02ModelMany(or, p, []uint{mask})[0]
-	return r.sigs, r.user, r.inDomain
+func c02Model(or *Oracle, p *c02Prog, mask uint) c02ModelRes {
+	return c02ModelMany(or, p, []uint{mask})[0]
 }
+
+// a function signature that mentions one generic union at two different type arguments: the pinned fc
+// instantiates only the first of them when the function is referenced (revisit guard keyed by the
+// union's name in transTVFType): reported finding, hazard stream only
+func c02TwoUnionInst(sigs []*c02Sig) bool {
+	for _, sg := range sigs {
+		seen := map[string]string{}
+		two := false
+		var walk func(t *c02Ty)
+		walk = func(t *c02Ty) {
+			if t.K == "named" && len(t.Args) > 0 && !c02DeclOf(t.Name).Record {
+				if k, ok := seen[t.Name]; ok && k != t.key() {
+					two = true
+				}
+				seen[t.Name] = t.key()
+			}
+			for _, a := range t.Args {
+				walk(a)
+			}
+		}
+		for _, a := range sg.Args {
+			walk(a)
+		}
+		walk(sg.Res)
+		if two {
+			return true
+		}
+	}
+	return false
+}
+
+var c02LeakRe = regexp.MustCompile(`\b_T\d+\b`)
 
 // several transpile requests pipelined to one in-process fc; falls back to single calls when the
 // server dies on one of them
@@ -261,19 +306,24 @@ func c02CheckProgram(c0 *Ctx, p *c02Prog, or *Oracle, srv *FcSrv, hazard bool, q
 		c = &Ctx{Res: NewResult(), Verif: c0.Verif, ID: c0.ID}
 	}
 	res := &c02Checked{prog: p}
-	full, _, fullIn := c02Model(or, p, 0)
+	fullM := c02Model(or, p, 0)
+	full := fullM.sigs
 	res.fullSigs = full
-	if !fullIn {
-		return nil // not a program of the domain (caller regenerates)
+	if !fullM.inDomain || (fullM.openGN || c02TwoUnionInst(fullM.user)) && !hazard {
+		// not a program of the main stream's domain (caller regenerates): there every generic
+		// record/union is at ground type arguments
+		return nil
 	}
 	nvar := uint(1) << uint(len(p.Sites))
-	viol := func(name, summary string, extra map[string]any) {
-		if hazard {
+	// known: the failure is of the known-finding class (hazard templates only): fc's output leaks an
+	// internal type variable _Tn inside the type arguments of a generic record/union
+	viol := func(name, summary string, extra map[string]any, known bool) {
+		if known {
 			c.Count(p.Stream + "_mismatch=" + name)
-			if p.Stream == "hazard-generic" {
-				c.Known("generic-named-args-not-unified")
+			if p.Stream == "hazard-union2" {
+				c.Known("generic-union-two-instantiations")
 			} else {
-				c.Known("destructure-underscore-unit")
+				c.Known("generic-named-args-not-unified")
 			}
 			c02HazardNote(c, p, summary, extra)
 			return
@@ -285,11 +335,11 @@ func c02CheckProgram(c0 *Ctx, p *c02Prog, or *Oracle, srv *FcSrv, hazard bool, q
 	for mask := uint(1); mask < nvar; mask++ {
 		masks = append(masks, mask)
 	}
-	models := append([]c02ModelRes{{sigs: full, inDomain: true}}, c02ModelMany(or, p, masks)...)
+	models := append([]c02ModelRes{fullM}, c02ModelMany(or, p, masks)...)
 	var vmasks []uint
 	var srcs []string
 	for mask := uint(0); mask < nvar; mask++ {
-		if !models[mask].inDomain {
+		if !models[mask].inDomain || (models[mask].openGN || c02TwoUnionInst(models[mask].user)) && !hazard {
 			c.Count("variant_outside_domain")
 			continue
 		}
@@ -314,17 +364,18 @@ func c02CheckProgram(c0 *Ctx, p *c02Prog, or *Oracle, srv *FcSrv, hazard bool, q
 		if !r.Ok || r.Outs["gen_m.go"] == "" {
 			bad = true
 			viol("reject", "fc rejects (or dies on) a well-typed function of the inference fragment: "+firstLine(r.Err),
-				map[string]any{"variant_mask": mask, "source": src, "fc_error": r.Err, "expected_signatures": sigs})
+				map[string]any{"variant_mask": mask, "source": src, "fc_error": r.Err, "expected_signatures": sigs}, false)
 			continue
 		}
 		gen := r.Outs["gen_m.go"]
 		if mask == 0 {
 			res.fullGen = gen
 		}
+		known := hazard && (c02LeakRe.MatchString(gen) || p.Stream == "hazard-union2")
 		got, err := c02GoSigs(gen)
 		if err != nil {
 			bad = true
-			viol("syntax", "emitted Go does not parse: "+err.Error(), map[string]any{"variant_mask": mask, "source": src, "gen": gen})
+			viol("syntax", "emitted Go does not parse: "+err.Error(), map[string]any{"variant_mask": mask, "source": src, "gen": gen}, known)
 			continue
 		}
 		for fi, f := range p.Funcs {
@@ -341,7 +392,7 @@ func c02CheckProgram(c0 *Ctx, p *c02Prog, or *Oracle, srv *FcSrv, hazard bool, q
 				}
 				bad = true
 				viol("sig", fmt.Sprintf("emitted signature is not the principal type: fc `%s`, principal `%s`", got[f.Name], want),
-					map[string]any{"variant_mask": mask, "function": f.Name, "source": src, "emitted": got[f.Name], "expected": want})
+					map[string]any{"variant_mask": mask, "function": f.Name, "source": src, "emitted": got[f.Name], "expected": want}, known)
 			}
 			if f.Expect != "" {
 				onlyRed := true
@@ -355,7 +406,7 @@ func c02CheckProgram(c0 *Ctx, p *c02Prog, or *Oracle, srv *FcSrv, hazard bool, q
 					if got[f.Name] != f.Expect {
 						bad = true
 						viol("sig-constr", fmt.Sprintf("emitted signature differs from the principal type known by construction: fc `%s`, expected `%s`", got[f.Name], f.Expect),
-							map[string]any{"variant_mask": mask, "function": f.Name, "source": src, "emitted": got[f.Name], "expected": f.Expect})
+							map[string]any{"variant_mask": mask, "function": f.Name, "source": src, "emitted": got[f.Name], "expected": f.Expect}, known)
 					}
 					if want != f.Expect && !hazard {
 						// the reference inference itself disagrees with the construction: the model or the generator is wrong
@@ -368,7 +419,7 @@ func c02CheckProgram(c0 *Ctx, p *c02Prog, or *Oracle, srv *FcSrv, hazard bool, q
 		if redundant && mask != 0 && res.fullGen != "" && gen != res.fullGen {
 			bad = true
 			viol("erase", "erasing annotations that the body already determines changes the emitted code",
-				map[string]any{"variant_mask": mask, "source_a": p.source(0), "source_b": src, "gen_a": res.fullGen, "gen_b": gen})
+				map[string]any{"variant_mask": mask, "source_a": p.source(0), "source_b": src, "gen_a": res.fullGen, "gen_b": gen}, known)
 		}
 	}
 	res.ok = !bad && res.fullGen != ""
@@ -465,6 +516,11 @@ func c02Features(c *Ctx, p *c02Prog) {
 	for _, f := range p.Funcs {
 		f.Body.count(m)
 		nodes += f.Body.nodes()
+		for k, v := range f.Feats {
+			if v > 0 {
+				c.CountN("feature="+k, v)
+			}
+		}
 		c.Count(fmt.Sprintf("params=%d", len(f.Params)))
 		for _, pa := range f.Params {
 			if pa.Ann {
@@ -545,7 +601,13 @@ func c02GenRandProg(c *Ctx, rng *Rng, or *Oracle, id int, hazardKind string) *c0
 			}
 			p.Funcs = append(p.Funcs, f)
 			p.Sites = nil
-			full, user, inDom := c02Model(or, p, 0)
+			fm := c02Model(or, p, 0)
+			full, user, inDom := fm.sigs, fm.user, fm.inDomain
+			if inDom && (fm.openGN || c02TwoUnionInst(fm.user)) && !hazard {
+				// a type variable inside the type arguments of a generic record/union: hazard stream only
+				c.Count("regenerated_open_generic_named")
+				inDom = false
+			}
 			if !inDom {
 				if full[len(full)-1] == "ILLTYPED" && !hazard {
 					// the generator builds well-typed functions by construction
@@ -582,6 +644,32 @@ func c02GenRandProg(c *Ctx, rng *Rng, or *Oracle, id int, hazardKind string) *c0
 		return p
 	}
 	panic("cannot generate a program")
+}
+
+// the shapes of the known finding generic-named-args-not-unified that are left after the partial fix:
+// the two branches of an if build the same generic union/record from a value of undetermined type
+func c02HazardTemplate(rng *Rng, id int) *c02Prog {
+	name := fmt.Sprintf("p%df0", id)
+	som := &c02Exp{K: "ctor", Name: "Opt", Name2: "Som", Args: []*c02Exp{c02V("y")}}
+	non := &c02Exp{K: "ctor", Name: "Opt", Name2: "Non"}
+	a, b := som, non
+	if rng.Bool() {
+		a, b = non, som
+	}
+	cond := c02Op("cmp", "<", c02V("x"), c02I(1+rng.Intn(9)))
+	body := &c02Exp{K: "if", Block: rng.Bool(), Args: []*c02Exp{cond, a, b}}
+	f := &c02Func{Name: name, Params: []c02Param{{Name: "x", Ty: c02Int, Ann: rng.Bool()}, {Name: "y", Ty: c02Var(0)}}, Body: body}
+	if rng.Bool() {
+		// both branches build the same generic record at ground type arguments
+		mk := func(k int) *c02Exp {
+			return &c02Exp{K: "record", Name: "Two", Args: []*c02Exp{c02Op("arith", "+", c02V("x"), c02I(k)), c02S_("s")}}
+		}
+		f = &c02Func{Name: name, Params: []c02Param{{Name: "x", Ty: c02Int, Ann: rng.Bool()}},
+			Body: &c02Exp{K: "if", Block: rng.Bool(), Args: []*c02Exp{cond, mk(1), mk(2)}}}
+	}
+	p := &c02Prog{ID: id, Stream: "hazard-generic", Funcs: []*c02Func{f}}
+	p.initSites(rng)
+	return p
 }
 
 func c02GenShapeProg(rng *Rng, id int, big bool) *c02Prog {
@@ -707,18 +795,21 @@ func c02Batch(c *Ctx, bi int, items []*c02Checked) {
 func runC02(c *Ctx) {
 	rng := NewRng(c.Seed)
 	c.Res.Rule = "programs = 1..3 generated functions over a fixed prelude of records/unions; rand stream: type-directed against an intended " +
-		"signature with rigid type variables; shape stream: value-flow graphs (chains, stars, tuples/slices in function types, helper generics " +
-		"at several instantiations) with the principal type known by construction; every subset of <= 6 annotations erased; " +
+		"signature with rigid type variables (lambda parameters may shadow outer names, parameters may be compared with each other before " +
+		"the use that fixes their type); shape stream: value-flow graphs (chains, stars, tuples/slices in function types, helper generics " +
+		"at several instantiations) and three families (one generic record/union at two type arguments + a caller; comparisons between " +
+		"parameters before the determining use; shadowing lambda parameters) with the principal type known by construction; every subset of <= 6 annotations erased; " +
 		"non-trivial = at least one unannotated parameter or a generic result; distinct by source text of the fully annotated program"
 	c02CheckFoi(c)
-	nRand := c.Pick(90, 2000)
-	nShape := c.Pick(60, 1200)
-	nHazard := c.Pick(10, 100)
+	nRand := c.Pick(110, 6000)
+	nShape := c.Pick(45, 2800)
+	nFam := c.Pick(15, 800) // per family (twobox, clamp, shadow)
+	nHazard := c.Pick(4, 40)
 	c02MaxSites = c.Pick(4, 6) // quick: <= 2^4 variants per program, thorough: <= 2^6
 	var progs []*c02Prog
 	if c.Replay != "" {
 		progs = c02LoadReplay(c.Replay)
-		nRand, nShape, nHazard = 0, 0, 0
+		nRand, nShape, nHazard, nFam = 0, 0, 0, 0
 	}
 	workers := 8
 	ors := c02NewOraclePool(c, workers)
@@ -742,6 +833,9 @@ func runC02(c *Ctx) {
 	for i := 0; i < nHazard; i++ {
 		jobs = append(jobs, job{"hazard", rng.Fork(), len(jobs)})
 	}
+	for i := 0; i < 3*nFam; i++ {
+		jobs = append(jobs, job{[]string{"twobox", "clamp", "shadow"}[i%3], rng.Fork(), len(jobs)})
+	}
 	if c.Replay == "" {
 		progs = make([]*c02Prog, len(jobs))
 	}
@@ -763,7 +857,21 @@ func runC02(c *Ctx) {
 				case "rand":
 					p = c02GenRandProg(c, j.rng, or, j.id, "")
 				case "hazard":
-					p = c02GenRandProg(c, j.rng, or, j.id, []string{"generic", "underscore"}[j.id%2])
+					if j.id%2 == 0 {
+						p = c02HazardTemplate(j.rng, j.id)
+					} else {
+						p = c02FamTwoBox(j.rng, j.id, true)
+						p.initSites(j.rng)
+					}
+				case "twobox":
+					p = c02FamTwoBox(j.rng, j.id, false)
+					p.initSites(j.rng)
+				case "clamp":
+					p = c02FamClamp(j.rng, j.id)
+					p.initSites(j.rng)
+				case "shadow":
+					p = c02FamShadow(j.rng, j.id)
+					p.initSites(j.rng)
 				default:
 					p = c02GenShapeProg(j.rng, j.id, c.Thorough())
 				}
